@@ -39,20 +39,27 @@ GroupsP(N, ms, b, a) ==            \* number of maximal runs
 
 \* ---- I -------------------------------------------------------------------
 \* state: [groups (finished, as <<lo, hi>>), lo, endLine (1-based), endOff, hi]
-RECURSIVE Run(_, _, _, _, _, _)
-Run(N, ms, b, a, k, st) ==
+\* asCode = TRUE: merge_adjacent as written - it moves lastEndOffset and the trailing text but NOT lastEndLine, so after
+\* a merge the next match is compared with the end line of the group's FIRST match: a match close behind a merged one
+\* starts a new group although its window touches the previous one, and the line(s) they share are printed twice
+\* (finding outside the listed properties, DESIGN 11.5; MC_Merger_witness.cfg).  asCode = FALSE: the end line moves
+\* along, which is what the statement P needs.
+RECURSIVE Run(_, _, _, _, _, _, _)
+Run(asCode, N, ms, b, a, k, st) ==
     IF k > Len(ms) THEN Append(st.groups, <<st.lo, st.hi>>)
     ELSE LET m == ms[k] IN
-         IF m.s < st.endOff THEN Run(N, ms, b, a, k + 1, st)                                  \* check_overlapping
+         IF m.s < st.endOff THEN Run(asCode, N, ms, b, a, k + 1, st)                          \* check_overlapping
          ELSE IF Minus(m.sl, b) <= st.endLine + a                                            \* merge_adjacent (display.start_line is 0-based)
-              THEN Run(N, ms, b, a, k + 1, [st EXCEPT !.endLine = m.el + 1, !.endOff = m.e, !.hi = WinHi(m, a, N)])
-              ELSE Run(N, ms, b, a, k + 1,                                                    \* print the group, conclude_match
+              THEN Run(asCode, N, ms, b, a, k + 1,
+                       [st EXCEPT !.endLine = IF asCode THEN @ ELSE m.el + 1, !.endOff = m.e, !.hi = WinHi(m, a, N)])
+              ELSE Run(asCode, N, ms, b, a, k + 1,                                            \* print the group, conclude_match
                        [groups |-> Append(st.groups, <<st.lo, st.hi>>), lo |-> WinLo(m, b), endLine |-> m.el + 1,
                         endOff |-> m.e, hi |-> WinHi(m, a, N)])
-GroupsI(N, ms, b, a) ==
+GroupsV(asCode, N, ms, b, a) ==
     IF ms = <<>> THEN <<>>
-    ELSE Run(N, ms, b, a, 2, [groups |-> <<>>, lo |-> WinLo(ms[1], b), endLine |-> ms[1].el + 1, endOff |-> ms[1].e,
-                              hi |-> WinHi(ms[1], a, N)])
+    ELSE Run(asCode, N, ms, b, a, 2, [groups |-> <<>>, lo |-> WinLo(ms[1], b), endLine |-> ms[1].el + 1, endOff |-> ms[1].e,
+                                      hi |-> WinHi(ms[1], a, N)])
+GroupsI(N, ms, b, a) == GroupsV(TRUE, N, ms, b, a)
 RECURSIVE LinesOf(_)
 LinesOf(gs) == IF gs = <<>> THEN <<>> ELSE [i \in 1..(gs[1][2] + 1 - gs[1][1]) |-> gs[1][1] + i - 1] \o LinesOf(Tail(gs))
 
